@@ -41,6 +41,15 @@ MODES = [
     ('off4', 'bound = " "', 'off', None),
     ('off5', 'bound("")', 'off', None),
 ]
+# predicates whose bounded type does not begin with an identifier (qualified path, reference, array, tuple, leading `::`, Self, higher-ranked, lifetime, pointer, fn, dyn, never, slice)
+LEADS = [('q', ['<u8 as Assoc>::Out: Copy', 'u32: Marker3']), ('ref', ["&'static u8: Copy"]), ('arr', ['[u8; 2]: Copy', 'u32: Marker3']), ('tup', ['(u8, u16): Copy']),
+         ('abs', ['::core::option::Option<u8>: Copy']), ('self', ['Self: Sized']), ('for', ["for<'x> &'x u16: Sized", 'u32: Marker3']), ('lt', ["'static: 'static"]),
+         ('ptr', ['*const u8: Copy']), ('fn', ['fn(u8) -> u8: Copy']), ('dyn', ['dyn Send: Send']), ('never', ['!: Sized']), ('slice', ['[u8]: Send']), ('paren', ['(u8): Copy']),
+         ('mutptr', ['*mut u8: Copy', 'u32: Marker3']), ('unit', ['(): Copy'])]
+for _id, _preds in LEADS:
+    MODES.append(('L' + _id, 'bound(%s)' % ', '.join(_preds), 'custom', _preds))
+    MODES.append(('L' + _id + 's', 'bound = "%s"' % ', '.join(_preds), 'custom', _preds))
+LEAD_IDS = tuple(m[0] for m in MODES if m[0].startswith('L'))
 P = K.TRAIT_PATH
 # request kinds: (id, trait metas builder, expected impls [(trait path, bound trait or None, supertraits)])
 
@@ -124,6 +133,8 @@ def generate(tier):
                             continue
                         if tier == 'quick' and mode[0] in ('c1s', 'off2', 'auto2', 'c1st', 'c2lt', 'off5') and wh[0] != 'w0':
                             continue
+                        if mode[0] in LEAD_IDS and (wh[0] not in ('w0', 'w1c') or (tier == 'quick' and wh[0] != 'w0') or ctx[0] not in ('none', 'T', 'ltc')):
+                            continue
                         ms = [fill(m, mode[1]) for m in metas]
                         markers, markers1 = '', ''
                         if rid == 'Into':
@@ -192,6 +203,8 @@ def check(v, tier, only=None):
     for w in WHERES:
         texts.update(w[1])
     texts.update(CUSTOM2)
+    for m in MODES:
+        texts.update(m[3] or [])
     texts.update(['u8', 'u16', 'Self'])
     tl = sorted(texts)
     canon = dict(zip(tl, xp.retokenise(binary, tl)))
